@@ -260,7 +260,16 @@ def collision_files():
     hc = header42.header_text("frag.c") + "\n"
     d = (hc + "int\tattr(int tri, int e);\nint\ti(void);\n\nint\tretur(int whil, int els)\n{\n\tint\tin;\n\tint\tvoi;\n\n"
          "\tin = attr(whil, els);\n\tvoi = i();\n\treturn (in + voi);\n}\n")
-    return [("collide.c", a), ("collide.h", b), ("frag.h", c), ("frag.c", d)]
+    # user identifiers spelled like the tool's internal token-kind names (upper-case macros, as users write them)
+    hk = header42.header_text("kinds.c") + "\n"
+    e = (hk + "#define TAB 9\n#define SPACE 32\n#define NEWLINE 10\n#define MULT 3\n#define SEMI_COLON 59\n#define IDENTIFIER 1\n"
+         "#define CONSTANT 2\n#define COMMA 44\n#define LPARENTHESIS 40\n#define ASSIGN 61\n\n"
+         "int\tft_kind(int c)\n{\n\tif (c == TAB || c == SPACE)\n\t\treturn (IDENTIFIER);\n\tif (c == NEWLINE && c != SEMI_COLON)\n"
+         "\t\treturn (CONSTANT * MULT);\n\treturn (c + COMMA - LPARENTHESIS + ASSIGN);\n}\n")
+    hkh = header42.header_text("kinds.h") + "\n"
+    f = (hkh + "#ifndef KINDS_H\n# define KINDS_H\n\n# define TAB 9\n# define STRING \"s\"\n# define RBRACE 125\n\n"
+         "int\t\tft_kind(int tab, int space, int newline);\n\n#endif\n")
+    return [("collide.c", a), ("collide.h", b), ("frag.h", c), ("frag.c", d), ("kinds.c", e), ("kinds.h", f)]
 
 
 def run(tier, seed):
